@@ -14,6 +14,19 @@ must exist); a `File <path> Pass|Fail` line, when printed, must agree too.  Asse
 Documented choice (not flagged): for a file that stops with a build error, HEAD prints the error instead of the log, so the assertions
 evaluated before the error do not appear at all; the statement's "exactly once" is therefore checked as "at most once, and only in its
 own part" for such files.
+
+Files of one invocation that touch each other (stand-in import_dag_invocations; multisets also in generated_orders):
+  * the list given to `ucg test` is a MULTISET: the same file may be named several times (also under different spellings of its path:
+    `./f`, `d/../d/f`, absolute) and is then validated up to that many times; every one of these validations must report the oracle's
+    verdict and carry the file's own log;
+  * test files may import other test files of the same run (a DAG).  What is pinned for an importer: it does not build when a file it
+    imports (transitively) does not build (the import expression is an evaluation error in it); its OWN assertions appear exactly once
+    in its own log and decide its verdict together with its build; assertions of a file g may appear in the log of f only if f imports
+    g (transitively).  The statement and the reference are SILENT on whether a failing assertion of an imported file fails the
+    importer ("every assert statement evaluated in it"), so for an importer that builds, whose own assertions all hold and that
+    imports a file with a failing assertion, no verdict is pinned: it only has to be the same in every invocation shape as when the
+    file is validated alone (see KNOWN for the one excluded situation).  The imported file's OWN verdict and log are pinned as for
+    any other file, whatever was validated or imported before it.
 """
 import itertools
 import os
@@ -347,4 +360,447 @@ def standin_recursive_dirs(tier, seed):
     return dict(name='recursive_dirs', bound=bound, cases=n_inv, status='ok')
 
 
-STANDINS = [standin_generated_orders, standin_recursive_dirs]
+# ------------------------------------------------------------------ files of one invocation that touch each other: import DAGs, multisets, path spellings, directories
+# Genuine defect of HEAD, excluded from the family (reported; see the module doc string for what is pinned about importers):
+KNOWN = [
+    # base_test.ucg: `let x = 1; assert {ok = x == 2, desc = "base x is two"};`   a_test.ucg / b_test.ucg: `let b = import "base_test.ucg";
+    # assert {ok = b.x == 1, desc = "..."};`.  `ucg test b_test.ucg` -> b_test.ucg FAIL (log: NOT OK: base x is two, OK: own);
+    # `ucg test a_test.ucg b_test.ucg` -> a_test.ucg FAIL, b_test.ucg PASS (its log has only its own assertion): the import value cache of
+    # the shared environment keeps base_test.ucg's value after the first import of the run, so its assert statements are evaluated (and
+    # counted) only for the FIRST importer.  Same for `ucg test b_test.ucg b_test.ucg` (FAIL, then PASS).  Whichever way "evaluated in it"
+    # is read for imported assertions, b's verdict depends on which files were tested before it.  Excluded: the verdict of an importer
+    # that builds, whose own assertions hold and that (transitively) imports a file with a failing assertion, in a validation that
+    # comes after a file of the same run that also imports such a file.  Everything else about that importer is still checked.
+    dict(id='importer-verdict-depends-on-earlier-import', family='import_dag_invocations',
+         excluded='verdict of a building importer with only true own assertions that imports a file with a failing assertion, when an earlier file of the same invocation imported that file too',
+         input='base_test.ucg: let x = 1; assert {ok = x == 2, desc = "base x is two"};  a_test.ucg, b_test.ucg: let b = import "base_test.ucg"; assert {ok = b.x == 1, desc = "own"};  `ucg test a_test.ucg b_test.ucg` vs `ucg test b_test.ucg`',
+         observed='b_test.ucg - PASS after a_test.ucg (FAIL), b_test.ucg - FAIL alone / when listed first: imported assertions are evaluated for the first importer of a run only',
+         clause="one file's verdict does not depend on which other files were tested before it"),
+]
+
+DAG_DIRS = ['.', 'sub', 'sub/deep', 'other']
+MARK_RE = re.compile(r'(?m)^Validating (\S+)\s*$')
+VLINE_RE = re.compile(r'(?m)^(\S+) - (PASS|FAIL)\s*$')
+FLINE_RE = re.compile(r'(?m)^File (\S+) (Pass|Fail)\s*$')
+
+
+class DagFile(object):
+    """A file of a project: `path` relative to the project root, own assertions, own build error, direct imports."""
+
+    def __init__(self, path, src='', asserts=None, build_error=None, deps=None, is_test=True, export=None):
+        self.path = os.path.normpath(path)
+        self.name = os.path.basename(self.path)
+        self.src = src
+        self.asserts = list(asserts or [])      # own: (desc or None, holds True / False / None = never evaluated, malformed)
+        self.build_error = build_error          # own
+        self.deps = list(deps or [])
+        self.is_test = is_test
+        self.export = export
+
+    def closure(self):
+        """Files imported directly or transitively (without self)."""
+        seen, todo = {}, list(self.deps)
+        while todo:
+            d = todo.pop()
+            if d.path not in seen:
+                seen[d.path] = d
+                todo += d.deps
+        return list(seen.values())
+
+    def builds(self):
+        return self.build_error is None and all(d.build_error is None for d in self.closure())
+
+    def own_fails(self):
+        return any(h is False for _, h, _ in self.asserts)
+
+    def verdict(self):
+        """'PASS' / 'FAIL' where the statement decides, None where it is silent (only consistency is demanded)."""
+        if not self.builds() or self.own_fails():
+            return 'FAIL'
+        if any(d.own_fails() for d in self.closure()):
+            return None
+        return 'PASS'
+
+    def desc_counts(self):
+        counted = {}
+        for desc, holds, _ in self.asserts:
+            if desc is not None:
+                counted[desc] = counted.get(desc, 0) + (0 if holds is None else 1)
+        return counted
+
+    def tainted(self):
+        """Imported files through which a failing assertion can reach this file's log."""
+        return set(d.path for d in self.closure() if d.own_fails() or any(e.own_fails() for e in d.closure()))
+
+
+class Project(object):
+    def __init__(self, pid, files):
+        self.pid = pid
+        self.files = files
+        self.tests = [f for f in files if f.is_test]
+        self.bypath = {f.path: f for f in files}
+        self.root = None
+
+    def write(self, parent):
+        self.root = os.path.realpath(os.path.join(parent, 'p%02d' % self.pid))
+        for f in self.files:
+            p = os.path.join(self.root, f.path)
+            os.makedirs(os.path.dirname(p), exist_ok=True)
+            with open(p, 'w') as fh:
+                fh.write(f.src)
+        for d in DAG_DIRS:
+            os.makedirs(os.path.join(self.root, d), exist_ok=True)
+
+    def sources(self):
+        return {f.path: f.src for f in self.files}
+
+
+def from_testfile(t):
+    return DagFile(t.name, t.src, t.asserts, t.build_error)
+
+
+def norm_path(p, root):
+    q = p if os.path.isabs(p) else os.path.join(root, p)
+    return os.path.normpath(os.path.relpath(os.path.normpath(q), root))
+
+
+def own_log(so, pos, end):
+    chunk = so[pos:end]
+    k = chunk.find('\nRESULTS:')
+    return chunk if k < 0 else chunk[:k]
+
+
+def known_affected(f, earlier_paths, bypath):
+    """KNOWN importer-verdict-depends-on-earlier-import: an earlier validation of the run imported a file through which a failing assertion reaches f."""
+    t = f.tainted()
+    return any(t & set(d.path for d in bypath[e].closure()) for e in earlier_paths if e in bypath)
+
+
+def alone_verdict(proj, path, rc, so):
+    vs = set(v for m in VLINE_RE.finditer(so) for v in [m.group(2)] if norm_path(m.group(1), proj.root) == path)
+    return vs.pop() if len(vs) == 1 else None
+
+
+def check_dag_run(proj, expected, rc, so, se, alone=None):
+    """Problems of one invocation.  expected: {path: how often the run names it (directly or through a directory)};
+    alone: {path: verdict printed when that file is validated alone} for the files whose verdict the statement leaves open."""
+    problems = []
+    alone = alone or {}
+    byp = proj.bypath
+    marks = [(m.start(), norm_path(m.group(1), proj.root)) for m in MARK_RE.finditer(so)]
+    spans = [(pos, marks[i + 1][0] if i + 1 < len(marks) else len(so), p) for i, (pos, p) in enumerate(marks)]
+    vlines = [(m.start(), norm_path(m.group(1), proj.root), m.group(2)) for m in VLINE_RE.finditer(so)]
+    flines = [(m.start(), norm_path(m.group(1), proj.root), m.group(2).upper()) for m in FLINE_RE.finditer(so)]
+    want = {p: byp[p].verdict() for p in expected}
+    if rc not in (0, 1):
+        problems.append('exit status %d: the run did not end normally: %s' % (rc, se[-200:]))
+    failing = sorted(p for p, v in want.items() if v == 'FAIL')
+    if failing and rc == 0:
+        problems.append('exit status 0 although %s must fail' % ', '.join(failing))
+    if want and all(v == 'PASS' for v in want.values()) and rc != 0:
+        problems.append('exit status %d although every file passes' % rc)
+    if not want and rc != 0:
+        problems.append('exit status %d although no file was to be validated' % rc)
+    if vlines and (rc != 0) != any(v == 'FAIL' for _, _, v in vlines):
+        problems.append('exit status %d does not match the printed verdicts (%s)' % (rc, ', '.join('%s %s' % (p, v) for _, p, v in vlines)))
+    for p in sorted(set(p for _, p in marks) - set(expected)):
+        problems.append('%s was validated although the run does not name it (not a listed file / not a *_test.ucg file of a listed directory)' % p)
+    for p, times in expected.items():
+        f = byp[p]
+        vs = [(pos, v) for pos, q, v in vlines if q == p]
+        fs = [(pos, v) for pos, q, v in flines if q == p]
+        if not vs:
+            problems.append('%s: no verdict line `%s - %s`' % (p, p, want[p] or 'PASS|FAIL'))
+        own = [(i, s) for i, s in enumerate(spans) if s[2] == p]
+        if marks and not (1 <= len(own) <= times):
+            problems.append('%s validated %d time(s), the run names it %d time(s)' % (p, len(own), times))
+        if want[p] is not None:
+            why = f.build_error or ('imports a file that does not build' if not f.builds() else '%d of its %d own assertions do not hold' % (sum(1 for _, h, _ in f.asserts if h is False), sum(1 for _, h, _ in f.asserts if h is not None)))
+            if any(v != want[p] for _, v in vs):
+                problems.append('%s reported %s, expected %s every time (%s)' % (p, '/'.join(v for _, v in vs), want[p], why))
+            if any(v != want[p] for _, v in fs):
+                problems.append('%s: line(s) `File %s %s`, expected %s (%s)' % (p, p, '/'.join(v for _, v in fs), want[p], why))
+        elif alone.get(p):
+            for i, (pos, end, _) in own:
+                if known_affected(f, [spans[j][2] for j in range(i)], byp):
+                    continue        # KNOWN importer-verdict-depends-on-earlier-import
+                got = [v for vp, v in vs + fs if pos <= vp < end]
+                if any(v != alone[p] for v in got):
+                    problems.append('%s reported %s here but %s when validated alone (its own assertions hold, it imports a file with a failing assertion, and no earlier file of this run imports that file)' % (p, '/'.join(got), alone[p]))
+        builds = f.builds()
+        allowed = set(d.path for d in f.closure())
+        dirty = [d for d in f.closure() if d.own_fails()]
+        for i, (pos, end, _) in own:
+            log = own_log(so, pos, end)
+            for desc, cnt in f.desc_counts().items():
+                c = log.count(desc)
+                if builds and c != cnt:
+                    problems.append('%s: its assertion "%s" appears %d time(s) in its log (validation #%d of the run), expected %d' % (p, desc, c, i + 1, cnt))
+                elif not builds and c > cnt:
+                    problems.append('%s: its assertion "%s" appears %d time(s) in its log, at most %d expected' % (p, desc, c, cnt))
+            if builds:
+                for desc, holds, _ in f.asserts:
+                    if desc is None or holds is None:
+                        continue
+                    for ln in log.split('\n'):
+                        if desc in ln and (('NOT OK' in ln) != (not holds)):
+                            problems.append('%s: assertion "%s" logged as `%s`, it %s' % (p, desc, ln.strip()[:80], 'holds' if holds else 'does not hold'))
+                notok = log.count('NOT OK')
+                lo = sum(1 for _, h, _ in f.asserts if h is False)
+                hi = lo + sum(1 for d in dirty for _, h, _ in d.asserts if h is False)
+                if not (lo <= notok <= hi):
+                    problems.append('%s: %d NOT OK entries in its log, expected %s (own false + malformed assertions, one entry each%s)' % (p, notok, lo if lo == hi else '%d..%d' % (lo, hi), '' if lo == hi else '; imported ones not pinned'))
+            for g in proj.tests:
+                if g is f or g.path in allowed:
+                    continue
+                for desc in g.desc_counts():
+                    if desc in log:
+                        problems.append('%s: its log contains assertion "%s" of %s, which it does not import' % (p, desc, g.path))
+    logs = [own_log(so, pos, end) for pos, end, _ in spans]
+    if marks:
+        for g in proj.tests:
+            for desc in g.desc_counts():
+                if so.count(desc) != sum(l.count(desc) for l in logs):
+                    problems.append('assertion "%s" of %s is printed outside the log of any file' % (desc, g.path))
+    return problems
+
+
+def dag_assert(rnd, kind, desc, k):
+    """One assert statement: kind T / F (literal tuple in several spellings) or M (malformed at run time)."""
+    if kind == 'M':
+        return 'assert %s;' % rnd.choice(MALFORMED_RT)
+    fields = ['ok = %s' % rnd.choice(TRUE_EXPRS if kind == 'T' else FALSE_EXPRS), 'desc = "%s"' % desc]
+    if rnd.random() < 0.5:
+        fields.reverse()
+    if rnd.random() < 0.2:
+        fields.insert(rnd.randint(0, 2), 'extra%d = %s' % (k, rnd.choice(['1', '"x"', '[1]', 'NULL'])))
+    if rnd.random() < 0.75:
+        return 'assert {%s};' % ', '.join(fields)
+    return 'let a%d = {%s};\nassert a%d;' % (k, ', '.join(fields), k)
+
+
+def gen_dag_file(rnd, pid, idx, path, deps, profile):
+    """profile: clean (only true assertions) / fails (at least one false or malformed one) / broken (a build error somewhere).
+    Imports of `deps` stand at random places between the assertions; most are followed (somewhere later) by a true assertion about the
+    imported value."""
+    tag = 'p%02df%d' % (pid, idx)
+    export = 1000 * pid + idx
+    k = rnd.randint(1 if profile == 'fails' else 0, 4)
+    kinds = ['T' if profile == 'clean' else rnd.choice('TTTFM' if profile == 'broken' else 'TTFM') for _ in range(k)]
+    if profile == 'fails' and not any(x in 'FM' for x in kinds):
+        kinds[rnd.randrange(k)] = rnd.choice('FFM')
+    stmts = [(HELPERS if 'M' in kinds else '') + 'let v = %d;' % export]
+    asserts = []
+    for a, kind in enumerate(kinds):
+        desc = '%s-a%d-%s' % (tag, a, {'T': 'holds', 'F': 'fails', 'M': 'malformed'}[kind])
+        stmts.append(dag_assert(rnd, kind, desc, a))
+        asserts.append((None if kind == 'M' else desc, kind == 'T', kind == 'M'))
+    for j, d in enumerate(deps):
+        rel = os.path.relpath(d.path, os.path.dirname(path) or '.')
+        at = rnd.randint(1, len(stmts))
+        stmts.insert(at, 'let i%d = import "%s";' % (j, rel))
+        if rnd.random() < 0.15:
+            stmts.insert(rnd.randint(at + 1, len(stmts)), 'let i%db = import "%s";' % (j, rel))        # "idempotent and cached": a second import in the same file
+        if rnd.random() < 0.7:
+            desc = '%s-u%d-holds' % (tag, j)
+            stmts.insert(rnd.randint(at + 1, len(stmts)), 'assert {ok = i%d.%s, desc = "%s"};' % (j, 'v == %d' % d.export if d.is_test else 'k == 7', desc))
+            asserts.append((desc, True, False))
+    build_error = None
+    if profile == 'broken':
+        stmt = rnd.choice(BUILD_ERRORS + MALFORMED_STATIC)
+        stmt = stmt % (pid * 10 + idx) if '%d' in stmt else (stmt % (tag + '-static') if '%s' in stmt else stmt)
+        pos = rnd.choice(['first', 'middle', 'last'])
+        stmts.insert({'first': 1, 'middle': 1 + (len(stmts) - 1) // 2, 'last': len(stmts)}[pos], stmt)
+        build_error = '%s statement does not build (`%s`)' % (pos, stmt)
+    return DagFile(path, '\n'.join(stmts) + '\n', asserts, build_error, deps, True, export)
+
+
+LIB_BROKEN = [('let z = 1 +;', 'a parse error'), ('let z = 1 + "a";', 'a type error'), ('let z = fail "lib boom";', 'a run-time error')]
+
+
+def gen_project(rnd, pid, nested):
+    """2..5 *_test.ucg files, file i importing a random subset of the files before it (a DAG with at least one edge), optionally a shared
+    lib.ucg (not a test file; sometimes broken); nested: files spread over ./ sub/ sub/deep/ other/, sometimes with equal base names."""
+    n = rnd.randint(2, 5)
+    files, tests = [], []
+    lib = None
+    if rnd.random() < 0.5:
+        if rnd.random() < 0.3:
+            stmt, what = rnd.choice(LIB_BROKEN)
+            lib = DagFile('lib.ucg', 'let k = 7;\n%s\n' % stmt, [], '%s in lib.ucg' % what, [], False)
+        else:
+            lib = DagFile('lib.ucg', 'let k = 7;\n', [], None, [], False)
+        files.append(lib)
+    edges = 0
+    for i in range(n):
+        d = rnd.choice(DAG_DIRS) if nested else '.'
+        base = 't%d_test.ucg' % i
+        if nested and tests and rnd.random() < 0.3:
+            other = rnd.choice(tests)
+            if os.path.normpath(os.path.join(d, other.name)) not in [t.path for t in tests]:
+                base = other.name                                   # same base name in another directory
+        path = os.path.normpath(os.path.join(d, base))
+        deps = [g for g in tests if rnd.random() < 0.5]
+        if i == n - 1 and edges == 0 and not deps:
+            deps = [rnd.choice(tests)]
+        edges += len(deps)
+        if lib is not None and rnd.random() < 0.4:
+            deps.insert(rnd.randint(0, len(deps)), lib)
+        f = gen_dag_file(rnd, pid, i, path, deps, rnd.choice(['clean', 'clean', 'fails', 'fails', 'broken']))
+        tests.append(f)
+        files.append(f)
+    return Project(pid, files)
+
+
+def fixed_projects():
+    """The shapes behind the missed changes C13_5 / C13_6 and their neighbours, with fixed content."""
+    out = []
+    # 0: a file with a false assertion that another test file imports; a bystander
+    base = DagFile('base_test.ucg', 'let v = 1;\nassert {ok = v == 2, desc = "q0-base-a0-fails"};\nassert {ok = v == 1, desc = "q0-base-a1-holds"};\n', [('q0-base-a0-fails', False, False), ('q0-base-a1-holds', True, False)], export=1)
+    user = DagFile('user_test.ucg', 'assert {ok = true, desc = "q0-user-a0-holds"};\nlet b = import "base_test.ucg";\nassert {ok = b.v == 1, desc = "q0-user-a1-holds"};\n', [('q0-user-a0-holds', True, False), ('q0-user-a1-holds', True, False)], deps=[base])
+    good = DagFile('good_test.ucg', 'assert {ok = 1 == 1, desc = "q0-good-a0-holds"};\n', [('q0-good-a0-holds', True, False)])
+    out.append(Project(0, [base, user, good]))
+    # 1: files that do not build (type error / parse error / static malformed assert after a true assertion), an importer of one of them, a bystander
+    tyerr = DagFile('tyerr_test.ucg', 'let v = 1;\nassert {ok = true, desc = "q1-tyerr-a0-holds"};\nlet x = 1 + "a";\n', [('q1-tyerr-a0-holds', True, False)], 'a type error on the last line', export=1)
+    perr = DagFile('perr_test.ucg', 'assert {ok = true, desc = "q1-perr-a0-holds"};\nlet x = 1 +;\n', [('q1-perr-a0-holds', True, False)], 'a parse error on the last line')
+    user = DagFile('user_test.ucg', 'let b = import "tyerr_test.ucg";\nassert {ok = true, desc = "q1-user-a0-holds"};\n', [('q1-user-a0-holds', True, False)], deps=[tyerr])
+    good = DagFile('good_test.ucg', 'assert {ok = 1 == 1, desc = "q1-good-a0-holds"};\n', [('q1-good-a0-holds', True, False)])
+    out.append(Project(1, [tyerr, perr, user, good]))
+    # 2: a passing file imported by two others (one with a false assertion BEFORE the import, one chaining), a shared lib
+    lib = DagFile('lib.ucg', 'let k = 7;\n', is_test=False)
+    dep = DagFile('sub/dep_test.ucg', 'let l = import "../lib.ucg";\nlet v = l.k;\nassert {ok = v == 7, desc = "q2-dep-a0-holds"};\nassert {desc = "q2-dep-a1-holds", ok = true};\n', [('q2-dep-a0-holds', True, False), ('q2-dep-a1-holds', True, False)], deps=[lib], export=7)
+    a = DagFile('a_test.ucg', 'assert {ok = false, desc = "q2-a-a0-fails"};\nlet d = import "sub/dep_test.ucg";\nassert {ok = d.v == 7, desc = "q2-a-a1-holds"};\n', [('q2-a-a0-fails', False, False), ('q2-a-a1-holds', True, False)], deps=[dep])
+    b = DagFile('other/b_test.ucg', 'let a = import "../a_test.ucg";\nlet d = import "../sub/dep_test.ucg";\nlet l = import "../lib.ucg";\nassert {ok = d.v == l.k, desc = "q2-b-a0-holds"};\n', [('q2-b-a0-holds', True, False)], deps=[a, dep, lib])
+    out.append(Project(2, [lib, dep, a, b]))
+    return out
+
+
+def spell(rnd, proj, path, style=None):
+    """Another way of naming the same file on the command line."""
+    style = style or rnd.choice(['plain', 'dot', 'abs', 'updown'])
+    if style == 'dot':
+        return './' + path
+    if style == 'abs':
+        return os.path.join(proj.root, path)
+    if style == 'updown':
+        d = os.path.dirname(path)
+        return os.path.join(d, '..', os.path.basename(d), os.path.basename(path)) if d else os.path.join('sub', '..', path)
+    return path
+
+
+def project_invocations(rnd, proj, thorough):
+    """[(args, {path: times})] : every file alone first (their index = position in proj.tests), then orders, multisets, spellings, directories."""
+    paths = [f.path for f in proj.tests]
+    n = len(paths)
+    invs = [([p], {p: 1}) for p in paths]
+    # (b) all files in every order (n <= 3) or in sampled orders; ordered pairs
+    if n <= 3:
+        orders = list(itertools.permutations(paths))
+    else:
+        orders = set()
+        orders.add(tuple(paths))
+        orders.add(tuple(reversed(paths)))
+        while len(orders) < (12 if thorough else 5):
+            orders.add(tuple(rnd.sample(paths, n)))
+        orders = sorted(orders)
+    invs += [(list(o), {p: 1 for p in o}) for o in orders]
+    if n >= 3:
+        for _ in range(4 if thorough else 2):
+            o = rnd.sample(paths, 2)
+            invs.append((o, {p: 1 for p in o}))
+    # (c) multisets: x x, x y x, the whole list with repeats, different spellings of one file
+    multis = []
+    for _ in range(3 if thorough else 1):
+        x = rnd.choice(paths)
+        multis.append([x, x])
+    for _ in range(3 if thorough else 1):
+        x, y = rnd.sample(paths, 2)
+        multis.append(rnd.choice([[x, y, x], [x, x, y], [y, x, x]]))
+    for _ in range(3 if thorough else 1):
+        o = rnd.sample(paths, n)
+        for _ in range(rnd.randint(1, 2)):
+            o.insert(rnd.randint(0, len(o)), rnd.choice(paths))
+        multis.append(o)
+    for m in multis:
+        cnt = {}
+        for p in m:
+            cnt[p] = cnt.get(p, 0) + 1
+        invs.append((list(m), cnt))
+    for _ in range(3 if thorough else 1):
+        x, y = rnd.sample(paths, 2)
+        m = [(x, rnd.choice(['dot', 'abs', 'updown'])), (y, rnd.choice(['plain', 'dot', 'abs', 'updown'])), (x, 'plain')]
+        rnd.shuffle(m)
+        cnt = {}
+        for p, _ in m:
+            cnt[p] = cnt.get(p, 0) + 1
+        invs.append(([spell(rnd, proj, p, s) for p, s in m], cnt))
+    # (d) through directories
+    def scope(dirs, recursive):
+        cnt = {}
+        for d in dirs:
+            r = os.path.normpath(d)
+            for p in paths:
+                pd = os.path.normpath(os.path.dirname(p) or '.')
+                if pd == r or (recursive and (r == '.' or pd.startswith(r + os.sep))):
+                    cnt[p] = cnt.get(p, 0) + 1
+        return cnt
+    invs.append((['-r', '.'], scope(['.'], True)))
+    used = sorted(set(os.path.dirname(p) or '.' for p in paths))
+    if used != ['.']:
+        ds = rnd.sample(used, len(used))
+        invs.append((['-r'] + ds, scope(ds, True)))
+        invs.append((list(ds), scope(ds, False)))
+    x = rnd.choice(paths)
+    cnt = scope(['.'], True)
+    cnt[x] += 1
+    invs.append((['-r', '.', x] if rnd.random() < 0.5 else ['-r', x, '.'], cnt))
+    if thorough:
+        invs.append((['-r', '.', '.'], scope(['.', '.'], True)))
+    return invs
+
+
+def standin_import_dag(tier, seed):
+    rnd = random.Random(seed)
+    thorough = tier == 'thorough'
+    projects = fixed_projects()
+    nfixed = len(projects)
+    for i in range(36 if thorough else 6):
+        projects.append(gen_project(rnd, nfixed + i, nested=(i % 2 == 1)))
+    work = tempfile.mkdtemp(prefix='verif_c13d_')
+    jobs, meta = [], []
+    try:
+        for proj in projects:
+            proj.write(work)
+            for k, (args, cnt) in enumerate(project_invocations(rnd, proj, thorough)):
+                jobs.append((['test'] + args, proj.root))
+                meta.append((proj, args, cnt, k))
+        res = run_many(jobs, 6 if thorough else 4)
+    finally:
+        shutil.rmtree(work, ignore_errors=True)
+    bound = ('%d fixed + %d seeded projects of 2..5 *_test.ucg files (0..4 own assertions true / false / malformed at run time, or a build error of %d kinds first / middle / last) in which '
+             'file i imports a random subset of the files before it (imports at random places between the assertions, imported values used in further assertions, second import of the same '
+             'file), half of them spread over nested directories with repeated base names, half with a shared lib.ucg (30%% of those broken); each project run as: every file alone, all files in '
+             'every order (<= 3 files) or %d sampled orders, ordered pairs, MULTISETS (x x / x y x / whole list with repeats / one file under several spellings of its path), and through '
+             'directories (-r ., -r <dirs>, <dirs>, -r . <file>%s): %d invocations; own verdict, own log and exit status against the reference, equal in every shape'
+             % (nfixed, len(projects) - nfixed, len(BUILD_ERRORS + MALFORMED_STATIC), 12 if thorough else 5, ', -r . .' if thorough else '', len(jobs)))
+    alone = {}
+    for (proj, args, cnt, k), (rc, so, se) in zip(meta, res):
+        if k < len(proj.tests):
+            alone[(proj.pid, args[0])] = alone_verdict(proj, args[0], rc, so)
+    for (proj, args, cnt, k), (rc, so, se) in zip(meta, res):
+        probs = check_dag_run(proj, cnt, rc, so, se, {p: alone.get((proj.pid, p)) for p in cnt})
+        if probs:
+            cmd = 'ucg test ' + ' '.join(a.replace(proj.root, '$PWD') for a in args)
+            exp = []
+            for p in cnt:
+                v = proj.bypath[p].verdict()
+                exp.append('%s %s' % (p, v or ('as alone (%s)' % alone.get((proj.pid, p)))))
+            hard = [proj.bypath[p].verdict() for p in cnt]
+            return dict(name='import_dag_invocations', bound=bound, cases=len(jobs), status='violation', detail='`%s`: %s' % (cmd, '; '.join(probs[:4])),
+                        input=dict(source=proj.sources(), files=proj.sources(), command=cmd, imports={f.path: [d.path for d in f.deps] for f in proj.files if f.deps},
+                                   expected='; '.join(exp) + '; exit status %s; own assertions of a building file exactly once in each of its logs' % ('non-zero' if 'FAIL' in hard else ('0' if all(h == 'PASS' for h in hard) else 'matching the verdicts')),
+                                   observed='exit status %d\n%s\n%s' % (rc, so[-2500:].replace(proj.root, '$PWD'), se[-400:]), how='real binary, files written under a temporary directory ($PWD), command run there'))
+    return dict(name='import_dag_invocations', bound=bound, cases=len(jobs), status='ok')
+
+
+STANDINS = [standin_generated_orders, standin_recursive_dirs, standin_import_dag]
